@@ -351,6 +351,12 @@ def judge_fork(ctx, rng, code, pred, nscripts, prefork=None):
     functions, parsing, _, _, _ = env.mods()
     name = f'OP_FORK{code}'
     aliases = [f'FK{code}', f'OP_FK{code}']
+    # an application may keep the retired NOP name as an alias, so that old
+    # sources go on compiling on the upgraded VM (to the same bytes)
+    nop_alias = rng.random() < 0.5
+    if nop_alias:
+        aliases.append(f'NOP{code}')
+    ctx.tab('fork_keeps_nop_name_as_alias', nop_alias)
     scripts, meta = [], []
     for _ in range(nscripts):
         s, kind, count = gen_fork_script(rng, code)
@@ -410,7 +416,8 @@ def judge_fork(ctx, rng, code, pred, nscripts, prefork=None):
         plain_nop = parsing.compile_script(sources['nop'])
     except BaseException as e:
         plain_nop = 'ERR ' + repr(e)[:100]
-    for label in ('name', 'name_lower', 'alias0', 'alias1'):
+    for label in ('name', 'name_lower', 'alias0', 'alias1') + \
+            (('nop',) if nop_alias else ()):
         got = out['compiled'].get(label)
         ctx.evaluated()
         if got != want_bytes or got != plain_nop:
